@@ -393,6 +393,17 @@ def replay_one(tx):
             res["truncated"] = 1
             return res
         act = tx["act"]
+        # a long-lived view onto the whole array as it is now (and one onto its first element), read once before the call
+        oldviews = []
+        fshape = tuple(tx["from"]["shape"]) if tx["from"]["made"] else ()
+        if tx["from"]["made"] and fshape and all(fshape) and not rawmode:
+            try:
+                v_all = sess.A.get_slice(tuple(0 for _ in fshape), fshape)
+                v_one = sess.B.get_slice(tuple(0 for _ in fshape), tuple(1 for _ in fshape))
+                _ = v_all[:], v_one[:], v_all[-1]
+                oldviews = [("whole", v_all, fshape), ("first", v_one, tuple(1 for _ in fshape))]
+            except Exception:  # noqa
+                oldviews = []
         exc = do(act)
         res["calls"] += 1
         if (exc is None) != (act["out"] == "ok"):
@@ -402,6 +413,36 @@ def replay_one(tx):
             return res
         post = []
         check_state(sess, tx["to"], post, "state", tx)
+        # the views taken before the call keep their window: they show the array's current content inside it
+        tshape = tuple(tx["to"]["shape"]) if tx["to"]["made"] else ()
+        if not post and oldviews and len(tshape) == len(fshape):
+            ref = sess.expected_array(tx["to"])
+            for vlabel, view, win in oldviews:
+                if not all(w <= t for w, t in zip(win, tshape)):
+                    continue          # the array shrank below the window: what the old view does then is left open
+                want = ref[tuple(slice(0, w) for w in win)]
+                try:
+                    got = view[:]
+                    if not same(got, want, conc.dtype):
+                        post.append(mk("state", tx, "view_read/kept_view_" + vlabel,
+                                       {"window": win, "array_shape": tshape, "expected": repr(want.tolist())[:160],
+                                        "observed": repr(np.asarray(got).tolist())[:160]}))
+                        break
+                    last = view[-1]
+                    wl = want[-1]
+                    if not same(np.asarray(last).reshape(np.shape(wl) or (1,)), np.asarray(wl).reshape(np.shape(wl) or (1,)), conc.dtype):
+                        post.append(mk("state", tx, "view_read/kept_view_%s_negative_index" % vlabel,
+                                       {"window": win, "array_shape": tshape, "expected": repr(np.asarray(wl).tolist())[:120],
+                                        "observed": repr(np.asarray(last).tolist())[:120]}))
+                        break
+                    tail = view[-1:]
+                    if not same(tail, want[-1:], conc.dtype):
+                        post.append(mk("state", tx, "view_read/kept_view_%s_open_slice" % vlabel,
+                                       {"window": win, "array_shape": tshape, "observed": repr(np.asarray(tail).tolist())[:120]}))
+                        break
+                except Exception as exc2:  # noqa
+                    post.append(mk("state", tx, "view_read/kept_view_%s_raises" % vlabel, {"exc": repr(exc2)[:160]}))
+                    break
         if not post and tx["to"]["made"]:
             # close + reopen, read-only
             sess.nf.close()
